@@ -16,8 +16,8 @@ pub fn spec() -> PropSpec {
     PropSpec {
         id: "C13",
         level: "exploration",
-        rule: "generated mixed streams: well-formed frames of the whole alphabet for 2-4 aircraft and windows of the recorded files, with 1..40 junk lines (empty, blanks, non-hex text, unaccepted digit counts, truncated frames, NUL bytes, invalid UTF-8, lone CR, 64-256 KiB lines) inserted at generated positions, LF or CRLF endings. Metamorphic oracle: the reader returns Ok and table(stream) == table(subsequence of lines the reference predicate of C02/C04 accepts), wall-clock stamps excluded; a share of the cases is repeated through the built CLI comparing the rows of the last refresh. Non-trivial = stream with >= 1 line that is not valid UTF-8 followed by >= 1 accepted line; distinct by hash of the stream",
-        assumptions: &["a junk line containing invalid UTF-8 never carries an accepted hex-digit count (C02 and C13 would otherwise pull in opposite directions)", "elapsed time plays no role: delete_after is large"],
+        rule: "generated mixed streams: well-formed frames of the whole alphabet for 2-4 aircraft and windows of the recorded files, with 1..40 junk lines (empty, blanks, non-hex text, unaccepted digit counts, truncated frames, NUL bytes, invalid UTF-8, lone CR, 64-256 KiB lines) inserted at generated positions, LF or CRLF endings. Metamorphic oracle: the reader returns Ok and table(stream) == table(subsequence of lines the reference predicate of C02/C04 accepts), wall-clock stamps excluded - also with delete_after 0 (every sweep empties the table, so a junk line that moved the sweep schedule would show), with an unterminated last line, with repeated lines and with junk whose tail after a power-of-two byte offset is a complete frame; a share of the cases is repeated through the built CLI comparing the rows of the last refresh. Non-trivial = stream with >= 1 line that is not valid UTF-8 followed by >= 1 accepted line; distinct by hash of the stream",
+        assumptions: &["a junk line containing invalid UTF-8 never carries an accepted hex-digit count (C02 and C13 would otherwise pull in opposite directions)", "elapsed time plays no role: delete_after is either very large or 0"],
         workers: 16,
         also_nochk: false,
         fuzz_target: Some("fz_stream"),
@@ -35,6 +35,9 @@ pub struct Mixed {
     pub opts: Opts,
     pub lines: Vec<Vec<u8>>,
     pub crlf: bool,
+    /// the last line has no line terminator
+    #[serde(default)]
+    pub no_final_newline: bool,
 }
 
 fn digits_of(line: &[u8]) -> Option<String> {
@@ -51,9 +54,16 @@ pub fn accepted(line: &[u8]) -> bool {
 }
 
 fn join(lines: &[&Vec<u8>], crlf: bool) -> Vec<u8> {
+    join_nl(lines, crlf, true)
+}
+
+fn join_nl(lines: &[&Vec<u8>], crlf: bool, final_newline: bool) -> Vec<u8> {
     let mut b = Vec::new();
-    for l in lines {
+    for (i, l) in lines.iter().enumerate() {
         b.extend_from_slice(l);
+        if i + 1 == lines.len() && !final_newline {
+            break;
+        }
         if crlf { b.push(b'\r'); }
         b.push(b'\n');
     }
@@ -83,10 +93,27 @@ fn mixed_strategy(rec: std::sync::Arc<Vec<Vec<u8>>>) -> BoxedStrategy<Mixed> {
         8 => (0usize..4).prop_flat_map(|a| alphabet::frame_any(gen::POOL[a])).prop_map(|f| f.hex().into_bytes()),
         2 => (0..nrec).prop_map(move |i| rec2.get(i).cloned().unwrap_or_default()),
     ];
-    let junk = prop_oneof![20 => gen::junk_line(), 1 => gen::long_junk_line()];
-    let line = prop_oneof![3 => good.prop_map(|l| (l, false)), 1 => junk.prop_map(|l| (l, true))];
-    (gen::opts_ur(), proptest::collection::vec(line, 2..80), any::<bool>())
-        .prop_map(|(opts, lines, crlf)| Mixed { opts, lines: lines.into_iter().map(|l| l.0).collect(), crlf })
+    let junk = prop_oneof![40 => gen::junk_line(), 2 => gen::long_junk_line(), 1 => gen::junk_with_frame_after_offset()];
+    // a line is: a good frame, junk, or a repetition of the previous line (marker)
+    let line = prop_oneof![12 => good.prop_map(Some), 4 => junk.prop_map(Some), 1 => Just(None)];
+    // delete_after 0 makes every sweep visible: a line that is not accepted must not move the sweep schedule
+    let opts = (gen::opts_ur(), prop_oneof![3 => Just(1_000_000i64), 1 => Just(0i64)]).prop_map(|(mut o, d)| { o.d = d; o });
+    (opts, proptest::collection::vec(line, 2..80), any::<bool>(), prop::bool::weighted(0.25))
+        .prop_map(|(opts, lines, crlf, no_final_newline)| {
+            let mut out: Vec<Vec<u8>> = Vec::new();
+            for l in lines {
+                match l {
+                    Some(l) => out.push(l),
+                    None => {
+                        // repeat the last accepted-looking line (possibly across junk) or the previous line
+                        if let Some(prev) = out.iter().rev().find(|x| x.len() == 28 || x.len() == 14).cloned().or_else(|| out.last().cloned()) {
+                            out.push(prev);
+                        }
+                    }
+                }
+            }
+            Mixed { opts, lines: out, crlf, no_final_newline }
+        })
         .boxed()
 }
 
@@ -94,14 +121,14 @@ fn check(m: &Mixed) -> Result<(), String> {
     let all: Vec<&Vec<u8>> = m.lines.iter().collect();
     let acc: Vec<&Vec<u8>> = m.lines.iter().filter(|l| accepted(l)).collect();
     let t1 = run::new_table();
-    run::run_bytes(&m.opts, &t1, &join(&all, m.crlf)).map_err(|e| format!("reader failed on the stream: {:?}", e))?;
+    run::run_bytes(&m.opts, &t1, &join_nl(&all, m.crlf, !m.no_final_newline)).map_err(|e| format!("reader failed on the stream: {:?}", e))?;
     let t2 = run::new_table();
     run::run_bytes(&m.opts, &t2, &join(&acc, false)).map_err(|e| format!("reader failed on the accepted subsequence: {:?}", e))?;
     let a = run::no_clock(&run::snapshot(&t1));
     let b = run::no_clock(&run::snapshot(&t2));
     if a != b {
         let d = run::table_diff(&b, &a);
-        return Err(format!("table(stream of {} lines) differs from table(its {} accepted lines): {}", all.len(), acc.len(), d.iter().take(6).cloned().collect::<Vec<_>>().join("; ")));
+        return Err(format!("table(stream of {} lines{}) differs from table(its {} accepted lines) [{}]: {}", all.len(), if m.no_final_newline { ", last line unterminated" } else { "" }, acc.len(), m.opts.label(), d.iter().take(6).cloned().collect::<Vec<_>>().join("; ")));
     }
     Ok(())
 }
@@ -159,6 +186,8 @@ fn run(c: &mut Ctx) {
                 c.class("other");
             }
             if m.crlf { c.class("crlf"); }
+            if m.no_final_newline { c.class("last_line_unterminated"); }
+            if m.opts.d == 0 { c.class("delete_after_0"); }
             if m.lines.iter().any(|l| l.len() > 60_000) { c.class("has_long_line"); }
             let nj = m.lines.iter().filter(|l| !accepted(l)).count();
             c.class_n("junk_lines_total", nj as u64);
